@@ -16,7 +16,377 @@ use crate::refsem::{self, Outcome, RefEnd};
 
 pub struct C11;
 
-pub const FAULTS: [&str; 10] = ["syntax-double-equals", "syntax-stray-paren", "syntax-dangling-operator", "type-mismatch", "undefined-label", "argument-count", "division-by-zero", "subscript-out-of-range", "overflow", "syntax-bad-for"];
+
+/// The original fault kinds (kept under their names: regress witnesses and known findings refer to them).
+const LEGACY_STATIC: [&str; 7] = ["syntax-double-equals", "syntax-stray-paren", "syntax-dangling-operator", "syntax-bad-for", "type-mismatch", "undefined-label", "argument-count"];
+/// Run-time faults that exist as IR (the reference semantics decides whether and through which call sites they are reached).
+const IR_RUNTIME: [&str; 7] = ["division-by-zero", "subscript-out-of-range", "overflow", "mod-by-zero", "subscript-out-of-range-read", "illegal-function-call", "overflow-in-expression"];
+
+// ------------------------------------------------------------------------------------------------
+// The fault catalogue: one entry = one statement text that has exactly one diagnostic, raised for that statement.
+// ------------------------------------------------------------------------------------------------
+
+#[derive(Clone, Copy, Debug, PartialEq)]
+pub enum Exp {
+    /// rejected by the parser (any parser error variant)
+    Parse,
+    /// rejected by the checker with one of these error variants
+    Lint(&'static [&'static str]),
+    /// accepted; fails at run time with this error code when the statement executes
+    Run(i32),
+}
+
+/// may stand after THEN / ELSE of a one-line IF and in front of `: statement`
+const S: u16 = 1;
+/// nothing may follow on the same line (the diagnostic depends on the line end, or `name:` would become a label)
+const TAIL: u16 = 2;
+/// must start its line (labels)
+const LS: u16 = 4;
+/// a stray block closer: never inside a block or a one-line IF
+const NB: u16 = 8;
+/// main module only
+const MO: u16 = 16;
+/// SUB bodies only
+const SO: u16 = 32;
+/// FUNCTION bodies only
+const FO: u16 = 64;
+/// needs the helper procedures `ZSb (ZPA%, ZPB%)` and `ZFn% (ZPA%, ZPB%)`
+const H: u16 = 128;
+/// needs `TYPE ZT` (fields ZA AS INTEGER, ZS AS STRING * 4)
+const T: u16 = 256;
+
+pub struct Fault {
+    /// `group:variant`; the group is part of the violation signature
+    pub name: &'static str,
+    pub text: &'static str,
+    /// statements of the same scope that come earlier (declarations, values)
+    pub pre: &'static [&'static str],
+    pub exp: Exp,
+    pub fl: u16,
+}
+
+const fn f(name: &'static str, text: &'static str, pre: &'static [&'static str], exp: Exp, fl: u16) -> Fault {
+    Fault { name, text, pre, exp, fl }
+}
+
+const ACM: Exp = Exp::Lint(&["ArgumentCountMismatch"]);
+const ACM0: Exp = Exp::Lint(&["ArgumentCountMismatch", "FunctionNeedsArguments"]);
+const ATM: Exp = Exp::Lint(&["ArgumentTypeMismatch", "TypeMismatch", "VariableRequired"]);
+const TM: Exp = Exp::Lint(&["TypeMismatch", "ArgumentTypeMismatch"]);
+const LND: Exp = Exp::Lint(&["LabelNotDefined"]);
+const DUPL: Exp = Exp::Lint(&["DuplicateLabel"]);
+const DUPD: Exp = Exp::Lint(&["DuplicateDefinition"]);
+const OUTS: Exp = Exp::Lint(&["IllegalOutsideSubFunction"]);
+const INS: Exp = Exp::Lint(&["IllegalInSubFunction"]);
+const TND: Exp = Exp::Lint(&["TypeNotDefined"]);
+const END_: Exp = Exp::Lint(&["ElementNotDefined"]);
+const SND: Exp = Exp::Lint(&["SubprogramNotDefined"]);
+const VREQ: Exp = Exp::Lint(&["VariableRequired"]);
+const ICON: Exp = Exp::Lint(&["InvalidConstant"]);
+const P: Exp = Exp::Parse;
+
+const DIM_ZA: &[&str] = &["DIM ZA%(5)"];
+const DIM_ZA2: &[&str] = &["DIM ZA%(2)"];
+const SET_ZL: &[&str] = &["ZL& = 100000"];
+const SET_ZN: &[&str] = &["ZN% = -1"];
+const DIM_ZR: &[&str] = &["DIM ZR AS ZT"];
+const CONST_ZC: &[&str] = &["CONST ZC = 1"];
+
+pub const CATALOGUE: &[Fault] = &[
+    // ---- wrong argument count: user SUB
+    f("argc-user-sub:more", "ZSb 1, 2, 3", &[], ACM, S | H),
+    f("argc-user-sub:fewer", "ZSb 1", &[], ACM, S | H),
+    f("argc-user-sub:none", "ZSb", &[], ACM, S | H | TAIL),
+    f("argc-user-sub:call-fewer", "CALL ZSb(1)", &[], ACM, S | H),
+    f("argc-user-sub:call-more", "CALL ZSb(1, 2, 3)", &[], ACM, S | H),
+    f("argc-user-sub:call-none", "CALL ZSb", &[], ACM, S | H),
+    // ---- wrong argument count: user FUNCTION in every expression position
+    f("argc-user-fn:fewer-assign", "ZQ% = ZFn%(1)", &[], ACM, S | H),
+    f("argc-user-fn:more-assign", "ZQ% = ZFn%(1, 2, 3)", &[], ACM, S | H),
+    f("argc-user-fn:none-assign", "ZQ% = ZFn%", &[], ACM, S | H),
+    f("argc-user-fn:bare-name", "ZQ% = ZFn(1)", &[], ACM, S | H),
+    f("argc-user-fn:in-builtin-args", "ZQ% = 1 + LEN(STR$(ZFn%(1)))", &[], ACM, S | H),
+    f("argc-user-fn:in-parens", "PRINT (ZFn%(1, 2, 3) + 1) * 2", &[], ACM, S | H),
+    f("argc-user-fn:in-sub-args", "ZSb ZFn%(1), 2", &[], ACM, S | H),
+    f("argc-user-fn:in-own-args", "ZQ% = ZFn%(ZFn%(1), 2)", &[], ACM, S | H),
+    f("argc-user-fn:in-subscript-target", "ZA%(ZFn%(1)) = 1", DIM_ZA, ACM, S | H),
+    f("argc-user-fn:in-subscript-read", "PRINT ZA%(ZFn%(1, 2, 3))", DIM_ZA, ACM, S | H),
+    f("argc-user-fn:in-if-condition", "IF ZFn%(1) > 0 THEN PRINT 1", &[], ACM, H | TAIL),
+    f("argc-user-fn:in-if-branch", "IF ZK1% = 1 THEN PRINT 1 ELSE PRINT ZFn%(1)", &[], ACM, H | TAIL),
+    f("argc-user-fn:in-print-list", "PRINT \"a\"; ZFn%(1); \"b\"", &[], ACM, S | H),
+    f("argc-user-fn:in-string-builtin", "ZQ$ = LEFT$(\"abc\", ZFn%(1))", &[], ACM, S | H),
+    f("argc-user-fn:in-comparison", "ZQ% = (ZFn%(1, 2, 3) = 3) AND 1", &[], ACM, S | H),
+    // ---- wrong argument count: built-in functions and subs
+    f("argc-builtin-fn:len", "ZQ% = LEN(\"a\", \"b\")", &[], ACM, S),
+    f("argc-builtin-fn:chr-bare", "ZQ$ = CHR$", &[], ACM0, S),
+    f("argc-builtin-fn:chr-empty", "ZQ$ = CHR$()", &[], ACM0, S),
+    f("argc-builtin-fn:asc-empty", "ZQ% = ASC()", &[], ACM0, S),
+    f("argc-builtin-fn:mid", "ZQ$ = MID$(\"abc\")", &[], ACM, S),
+    f("argc-builtin-fn:left", "ZQ$ = LEFT$(\"abc\")", &[], ACM, S),
+    f("argc-builtin-fn:ucase", "ZQ$ = UCASE$(\"a\", \"b\")", &[], ACM, S),
+    f("argc-builtin-fn:str", "ZQ$ = STR$(1, 2)", &[], ACM, S),
+    f("argc-builtin-fn:instr", "ZQ% = INSTR(\"a\")", &[], ACM, S),
+    f("argc-builtin-fn:val", "ZQ! = VAL(\"1\", \"2\")", &[], ACM, S),
+    f("argc-builtin-fn:nested-print", "PRINT 1 + LEN(\"a\", \"b\")", &[], ACM, S),
+    f("argc-builtin-fn:nested-arg", "ZQ$ = LEFT$(MID$(\"abc\"), 1)", &[], ACM, S),
+    f("argc-builtin-sub:kill-none", "KILL", &[], ACM, S | TAIL),
+    f("argc-builtin-sub:kill-more", "KILL \"a\", \"b\"", &[], ACM, S),
+    f("argc-builtin-sub:environ-none", "ENVIRON", &[], ACM, S | TAIL),
+    f("argc-builtin-sub:locate-more", "LOCATE 1, 2, 3, 4, 5, 6", &[], ACM, S),
+    f("argc-builtin-sub:beep-more", "BEEP 1", &[], ACM, S),
+    f("argc-builtin-sub:color-more", "COLOR 1, 2, 3, 4", &[], ACM, S),
+    // ---- wrong argument type
+    f("argt-user-sub:first", "ZSb \"x\", 2", &[], ATM, S | H),
+    f("argt-user-sub:second", "ZSb 1, \"y\"", &[], ATM, S | H),
+    f("argt-user-sub:call", "CALL ZSb(\"x\", 2)", &[], ATM, S | H),
+    f("argt-user-sub:byref-string", "ZSb ZS$, 1", &["ZS$ = \"a\""], ATM, S | H),
+    f("argt-user-sub:byref-long", "ZSb ZL&, 1", SET_ZL, ATM, S | H),
+    f("argt-user-fn:first", "ZQ% = ZFn%(\"x\", 2)", &[], ATM, S | H),
+    f("argt-user-fn:second-print", "PRINT 1 + ZFn%(1, \"y\")", &[], ATM, S | H),
+    f("argt-user-fn:nested", "ZQ% = LEN(STR$(ZFn%(\"x\", 2)))", &[], ATM, S | H),
+    f("argt-user-fn:byref-long", "ZQ% = ZFn%(1, ZL&)", SET_ZL, ATM, S | H),
+    f("argt-user-fn:in-sub-args", "ZSb ZFn%(1, \"y\"), 2", &[], ATM, S | H),
+    f("argt-builtin-fn:chr", "ZQ$ = CHR$(\"a\")", &[], ATM, S),
+    f("argt-builtin-fn:left-first", "ZQ$ = LEFT$(1, 2)", &[], ATM, S),
+    f("argt-builtin-fn:left-second", "ZQ$ = LEFT$(\"abc\", \"b\")", &[], ATM, S),
+    f("argt-builtin-fn:ucase-in-parens", "PRINT (UCASE$(5))", &[], ATM, S),
+    f("argt-builtin-fn:mid", "ZQ$ = MID$(\"abc\", \"x\")", &[], ATM, S),
+    f("argt-builtin-fn:instr", "ZQ% = INSTR(1, 2)", &[], ATM, S),
+    f("argt-builtin-fn:val", "ZQ% = VAL(5)", &[], ATM, S),
+    f("argt-builtin-fn:str", "ZQ$ = STR$(\"a\")", &[], ATM, S),
+    f("argt-builtin-fn:nested", "ZQ$ = UCASE$(LEN(\"a\"))", &[], ATM, S),
+    f("argt-builtin-fn:len-of-number", "PRINT 1 + LEN(5)", &[], ATM, S),
+    f("argt-builtin-sub:kill", "KILL 5", &[], ATM, S),
+    f("argt-builtin-sub:environ", "ENVIRON 5", &[], ATM, S),
+    f("argt-builtin-sub:locate", "LOCATE \"a\"", &[], ATM, S),
+    f("argt-builtin-sub:color", "COLOR \"a\"", &[], ATM, S),
+    f("argt-builtin-sub:open", "OPEN 5 FOR INPUT AS #1", &[], ATM, S),
+    f("argt-builtin-sub:line-input", "LINE INPUT ZQ%", &[], ATM, S),
+    f("argt-builtin-sub:close", "CLOSE \"a\"", &[], ATM, S),
+    // ---- undefined label
+    f("label:goto", "GOTO ZNo", &[], LND, S),
+    f("label:gosub", "GOSUB ZNo", &[], LND, S),
+    f("label:on-error", "ON ERROR GOTO ZNo", &[], LND, S),
+    f("label:resume", "RESUME ZNo", &[], LND, S | MO),
+    f("label:return", "RETURN ZNo", &[], LND, S | MO),
+    f("label:if-then-goto", "IF ZK1% = 1 THEN GOTO ZNo", &[], LND, TAIL),
+    f("label:if-else-goto", "IF ZK1% = 1 THEN PRINT 1 ELSE GOTO ZNo", &[], LND, TAIL),
+    // ---- duplicates
+    f("dup-label:same-scope", "ZL1:", &["ZL1:"], DUPL, LS | TAIL),
+    f("dup-dim:compact", "DIM ZD%", &["DIM ZD%"], DUPD, 0),
+    f("dup-dim:extended-other-type", "DIM ZD AS LONG", &["DIM ZD AS INTEGER"], DUPD, 0),
+    f("dup-dim:array", "DIM ZA%(3)", &["DIM ZA%(3)"], DUPD, 0),
+    f("dup-dim:after-implicit", "DIM ZV%", &["ZV% = 1"], DUPD, 0),
+    f("dup-dim:of-const", "DIM ZC%", CONST_ZC, DUPD, 0),
+    f("dup-dim:of-sub", "DIM ZSb", &[], DUPD, H),
+    f("dup-dim:of-function", "DIM ZFn%", &[], DUPD, H),
+    f("dup-const:const", "CONST ZC = 2", CONST_ZC, DUPD, 0),
+    f("dup-const:of-variable", "CONST ZV = 2", &["ZV = 1"], DUPD, 0),
+    f("dup-const:of-function", "CONST ZFn = 1", &[], DUPD, H),
+    f("const-assign:bare", "ZC = 2", CONST_ZC, DUPD, S),
+    f("const-assign:qualified", "ZC% = 2", CONST_ZC, DUPD, S),
+    f("const-assign:typed-const", "ZC% = 2", &["CONST ZC% = 1"], DUPD, S),
+    f("const-assign:function-name", "ZFn% = 1", &[], DUPD, S | H | MO),
+    f("const-assign:sub-name", "ZSb = 1", &[], DUPD, S | H | MO),
+    // ---- type mismatch in every expression position
+    f("type-mismatch-x:assign-str-to-num", "ZQ% = \"abc\"", &[], TM, S),
+    f("type-mismatch-x:assign-num-to-str", "ZQ$ = 5", &[], TM, S),
+    f("type-mismatch-x:plus-right", "ZQ% = 1 + \"a\"", &[], TM, S),
+    f("type-mismatch-x:plus-left", "ZQ% = \"a\" + 1", &[], TM, S),
+    f("type-mismatch-x:negate", "ZQ% = -\"a\"", &[], TM, S),
+    f("type-mismatch-x:not", "ZQ% = NOT \"a\"", &[], TM, S),
+    f("type-mismatch-x:print-plus", "PRINT 1 + \"a\"", &[], TM, S),
+    f("type-mismatch-x:print-times", "PRINT \"a\" * 2", &[], TM, S),
+    f("type-mismatch-x:parens", "PRINT (\"a\" + 1)", &[], TM, S),
+    f("type-mismatch-x:parens-2", "PRINT ((\"a\") - 1)", &[], TM, S),
+    f("type-mismatch-x:builtin-arg", "ZQ% = LEN(STR$(1 + \"a\"))", &[], TM, S),
+    f("type-mismatch-x:subscript-target", "ZA%(\"x\") = 1", DIM_ZA, TM, S),
+    f("type-mismatch-x:subscript-read", "PRINT ZA%(\"x\")", DIM_ZA, TM, S),
+    f("type-mismatch-x:element-assign", "ZA%(1) = \"s\"", DIM_ZA, TM, S),
+    f("type-mismatch-x:if-condition", "IF \"a\" THEN PRINT 1", &[], TM, TAIL),
+    f("type-mismatch-x:if-comparison", "IF 1 < \"a\" THEN PRINT 1", &[], TM, TAIL),
+    f("type-mismatch-x:if-then-branch", "IF ZK1% = 1 THEN ZQ% = \"a\"", &[], TM, TAIL),
+    f("type-mismatch-x:if-else-branch", "IF ZK1% = 2 THEN PRINT 1 ELSE ZQ% = \"a\"", &[], TM, TAIL),
+    f("type-mismatch-x:and", "PRINT \"a\" AND 1", &[], TM, S),
+    f("type-mismatch-x:or", "PRINT 1 OR \"b\"", &[], TM, S),
+    f("type-mismatch-x:mod", "PRINT 2 MOD \"b\"", &[], TM, S),
+    f("type-mismatch-x:sub-arg", "ZSb 1 + \"a\", 2", &[], TM, S | H),
+    f("type-mismatch-x:fn-arg", "PRINT ZFn%(1, 2 + \"b\")", &[], TM, S | H),
+    f("type-mismatch-x:print-list-last", "PRINT 1; 2; 3 + \"c\"", &[], TM, S),
+    f("type-mismatch-x:comparison", "ZQ% = \"a\" < 1", &[], TM, S),
+    f("type-mismatch-x:concat-number", "ZQ$ = \"a\" + 1", &[], TM, S),
+    f("type-mismatch-x:string-minus", "ZQ$ = \"a\" - \"b\"", &[], TM, S),
+    f("type-mismatch-x:string-divide", "PRINT \"a\" / \"b\"", &[], TM, S),
+    f("type-mismatch-x:equals-in-parens", "ZQ% = (1 = \"a\")", &[], TM, S),
+    f("type-mismatch-x:len-arg", "PRINT LEN(\"a\" + 1)", &[], TM, S),
+    f("type-mismatch-x:negated-parens", "PRINT -(1 + \"a\")", &[], TM, S),
+    f("type-mismatch-x:print-file", "PRINT #1, 1 + \"a\"", &[], TM, S),
+    f("type-mismatch-x:print-using", "PRINT USING \"##\"; \"a\" + 1", &[], TM, S),
+    f("type-mismatch-x:const-expr", "CONST ZC = \"a\" + 1", &[], TM, 0),
+    // ---- user-defined types and fields
+    f("type:undefined-type", "DIM ZR AS ZNoType", &[], TND, 0),
+    f("type:undefined-type-array", "DIM ZR(3) AS ZNoType", &[], TND, 0),
+    f("type:undefined-field-assign", "ZR.ZNoField = 1", DIM_ZR, END_, S | T),
+    f("type:undefined-field-print", "PRINT ZR.ZNoField", DIM_ZR, END_, S | T),
+    f("type:undefined-field-nested", "ZQ% = 1 + ZR.ZNoField", DIM_ZR, END_, S | T),
+    f("type:record-assign-number", "ZR = 5", DIM_ZR, TM, S | T),
+    f("type:field-assign-string", "ZR.ZA = \"s\"", DIM_ZR, TM, S | T),
+    f("type:print-record", "PRINT ZR", DIM_ZR, TM, S | T),
+    f("type:record-to-number", "ZQ% = ZR", DIM_ZR, TM, S | T),
+    // ---- other checker diagnostics with one offending statement
+    f("undefined-sub:args", "ZNoSub 1", &[], SND, S),
+    f("undefined-sub:bare", "ZNoSub", &[], SND, S | TAIL),
+    f("undefined-sub:call-args", "CALL ZNoSub(1)", &[], SND, S),
+    f("undefined-sub:call-bare", "CALL ZNoSub", &[], SND, S),
+    f("variable-required:input", "INPUT 5", &[], VREQ, S),
+    f("variable-required:read", "READ 5", &[], VREQ, S),
+    f("invalid-constant:variable", "CONST ZC = ZK1%", &[], ICON, 0),
+    f("invalid-constant:function", "CONST ZC = LEN(\"a\")", &[], ICON, 0),
+    f("invalid-constant:string-length", "DIM ZF AS STRING * 0", &[], ICON, 0),
+    f("const-eval:division-by-zero", "CONST ZC = 1 / 0", &[], Exp::Lint(&["DivisionByZero"]), 0),
+    f("const-eval:overflow", "CONST ZC% = 100000", &[], Exp::Lint(&["Overflow"]), 0),
+    f("array-not-defined:assign", "ZNoArr%(1) = 5", &[], Exp::Lint(&["ArrayNotDefined"]), S),
+    f("scope:exit-sub-outside", "EXIT SUB", &[], OUTS, S | MO),
+    f("scope:exit-function-outside", "EXIT FUNCTION", &[], OUTS, S | MO),
+    f("scope:exit-function-in-sub", "EXIT FUNCTION", &[], INS, S | SO),
+    f("scope:exit-sub-in-function", "EXIT SUB", &[], INS, S | FO),
+    f("scope:dim-shared-in-sub", "DIM SHARED ZW%", &[], INS, SO),
+    f("scope:dim-shared-in-function", "DIM SHARED ZW%", &[], INS, FO),
+    // ---- syntax: string literal without closing quote
+    f("syntax-string:print", "PRINT \"abc", &[], P, S | TAIL),
+    f("syntax-string:assign", "ZQ$ = \"abc", &[], P, S | TAIL),
+    f("syntax-string:print-list", "PRINT \"hello, ; ZQ$", &[], P, S | TAIL),
+    f("syntax-string:concat", "ZQ$ = \"a\" + \"bc", &[], P, S | TAIL),
+    f("syntax-string:builtin-arg", "PRINT LEN(\"abc)", &[], P, S | TAIL),
+    f("syntax-string:sub-arg", "ZSb 1, \"x", &[], P, S | TAIL | H),
+    f("syntax-string:if-branch", "IF ZK1% = 1 THEN PRINT \"yes", &[], P, TAIL),
+    f("syntax-string:empty", "ZQ$ = \"", &[], P, S | TAIL),
+    // ---- syntax: unbalanced parenthesis
+    f("syntax-paren:open-assign", "ZQ = (1 + 2", &[], P, S),
+    f("syntax-paren:open-nested", "ZQ = ((1 + 2) * 3", &[], P, S),
+    f("syntax-paren:open-print", "PRINT (1", &[], P, S),
+    f("syntax-paren:close-extra", "ZQ = 1 + 2)", &[], P, S),
+    f("syntax-paren:open-builtin", "PRINT LEN(\"a\"", &[], P, S),
+    f("syntax-paren:open-builtin-2", "ZQ = VAL(\"1\"", &[], P, S),
+    f("syntax-paren:open-user-fn", "PRINT ZFn%(1, 2", &[], P, S | H),
+    f("syntax-paren:open-sub-args", "ZSb (1, 2", &[], P, S | H),
+    f("syntax-paren:open-double", "PRINT ((1)", &[], P, S),
+    f("syntax-paren:close-only", "PRINT )", &[], P, S),
+    f("syntax-paren:open-subscript", "ZA%(1 = 2", DIM_ZA, P, S),
+    // ---- syntax: illegal token
+    f("syntax-token:question", "ZQ = 1 ? 2", &[], P, S),
+    f("syntax-token:at", "ZQ = @", &[], P, S),
+    f("syntax-token:tilde", "ZQ = 1 ~ 2", &[], P, S),
+    f("syntax-token:brace", "ZQ = {1}", &[], P, S),
+    f("syntax-token:bracket", "ZQ = [1]", &[], P, S),
+    f("syntax-token:pipe", "ZQ = 1 | 2", &[], P, S),
+    f("syntax-token:backtick", "ZQ = `", &[], P, S),
+    f("syntax-token:at-start", "@ = 1", &[], P, S),
+    f("syntax-token:hash", "ZQ = 1 # 2", &[], P, S),
+    f("syntax-token:bang", "ZQ = 1 ! 2", &[], P, S),
+    f("syntax-token:tilde-end", "PRINT 1 ~", &[], P, S),
+    f("syntax-token:double-question", "?? 1", &[], P, S),
+    // ---- syntax: operators and operands
+    f("syntax-operator:double-equals", "ZQ = = 1", &[], P, S),
+    f("syntax-operator:dangling-plus", "ZQ = 1 +", &[], P, S),
+    f("syntax-operator:two-operands", "ZQ = 1 2", &[], P, S),
+    f("syntax-operator:stray-then", "ZQ = 1 THEN", &[], P, S),
+    f("syntax-operator:two-operators", "ZQ = 1 +* 2", &[], P, S),
+    f("syntax-operator:leading-times", "ZQ = * 2", &[], P, S),
+    f("syntax-operator:dangling-and", "ZQ = 1 AND", &[], P, S),
+    f("syntax-operator:dangling-not", "ZQ = NOT", &[], P, S),
+    f("syntax-operator:print-commas-paren", "PRINT 1,, )", &[], P, S),
+    f("syntax-operator:missing-equals", "ZQ% 5", &[], P, S),
+    // ---- syntax: incomplete statements
+    f("syntax-statement:dim", "DIM", &[], P, 0),
+    f("syntax-statement:goto", "GOTO", &[], P, S),
+    f("syntax-statement:gosub", "GOSUB", &[], P, S),
+    f("syntax-statement:if-without-then", "IF ZK1% = 1 PRINT 2", &[], P, TAIL),
+    f("syntax-statement:if-without-condition", "IF THEN PRINT 1", &[], P, TAIL),
+    f("syntax-statement:const-without-value", "CONST ZC", &[], P, 0),
+    f("syntax-statement:const-without-name", "CONST = 1", &[], P, 0),
+    f("syntax-statement:dim-as", "DIM ZD AS", &[], P, 0),
+    f("syntax-statement:dim-open", "DIM ZA%(", &[], P, 0),
+    f("syntax-statement:dim-to", "DIM ZA%(1 TO)", &[], P, 0),
+    f("syntax-statement:on-error-goto", "ON ERROR GOTO", &[], P, S),
+    f("syntax-statement:on-error", "ON ERROR", &[], P, S),
+    f("syntax-statement:resume", "RESUME 5 5", &[], P, S),
+    f("syntax-statement:input", "INPUT", &[], P, S),
+    f("syntax-statement:read", "READ", &[], P, S),
+    f("syntax-statement:exit-for", "EXIT FOR", &[], P, S),
+    f("syntax-statement:option-base", "OPTION BASE 1", &[], P, 0),
+    // ---- block closers without opener
+    f("syntax-closer:next", "NEXT", &[], P, NB),
+    f("syntax-closer:next-named", "NEXT ZK1%", &[], P, NB),
+    f("syntax-closer:wend", "WEND", &[], P, NB),
+    f("syntax-closer:loop", "LOOP", &[], P, NB),
+    f("syntax-closer:loop-until", "LOOP UNTIL ZK1% = 1", &[], P, NB),
+    f("syntax-closer:end-if", "END IF", &[], P, NB),
+    f("syntax-closer:end-select", "END SELECT", &[], P, NB),
+    f("syntax-closer:case", "CASE 1", &[], P, NB),
+    f("syntax-closer:else", "ELSE", &[], P, NB),
+    f("syntax-closer:elseif", "ELSEIF ZK1% = 1 THEN", &[], P, NB),
+    f("syntax-closer:end-sub", "END SUB", &[], P, NB | MO),
+    f("syntax-closer:end-function", "END FUNCTION", &[], P, NB | MO),
+    // ---- run-time faults of every kind
+    f("rt-division-by-zero:assign", "ZF! = 1.5 / ZZ%", &[], Exp::Run(11), S),
+    f("rt-division-by-zero:mod", "ZI% = 7 MOD ZZ%", &[], Exp::Run(11), S),
+    f("rt-division-by-zero:print", "PRINT 1 / ZZ%", &[], Exp::Run(11), S),
+    f("rt-division-by-zero:nested-parens", "PRINT 2 * (3 + 4 / ZZ%)", &[], Exp::Run(11), S),
+    f("rt-division-by-zero:if-condition", "IF 1 / ZZ% > 0 THEN PRINT 1", &[], Exp::Run(11), TAIL),
+    f("rt-division-by-zero:if-else-branch", "IF ZZ% = 1 THEN PRINT 1 ELSE ZF! = 1 / ZZ%", &[], Exp::Run(11), TAIL),
+    f("rt-division-by-zero:sub-arg", "ZSb 1 / ZZ%, 2", &[], Exp::Run(11), S | H),
+    f("rt-division-by-zero:fn-arg", "ZQ% = ZFn%(1, 2 MOD ZZ%)", &[], Exp::Run(11), S | H),
+    f("rt-division-by-zero:builtin-arg", "ZQ% = LEN(STR$(5 / ZZ%))", &[], Exp::Run(11), S),
+    f("rt-division-by-zero:print-list", "PRINT \"a\"; 1 / ZZ%; \"b\"", &[], Exp::Run(11), S),
+    f("rt-overflow:literal", "ZI% = 40000", &[], Exp::Run(6), S),
+    f("rt-overflow:negative-literal", "ZI% = -40000", &[], Exp::Run(6), S),
+    f("rt-overflow:long-to-int", "ZI% = ZL&", SET_ZL, Exp::Run(6), S),
+    f("rt-overflow:int-times", "ZI% = ZI% * ZI%", &["ZI% = 300"], Exp::Run(6), S),
+    f("rt-overflow:int-plus", "ZI% = ZI% + 1", &["ZI% = 32767"], Exp::Run(6), S),
+    f("rt-overflow:long-plus", "ZM& = ZM& + 1", &["ZM& = 2147483647"], Exp::Run(6), S),
+    f("rt-overflow:double-to-long", "ZM& = ZD#", &["ZD# = 3000000000.0#"], Exp::Run(6), S),
+    f("rt-overflow:sub-arg", "ZSb ZL& * 1, 2", SET_ZL, Exp::Run(6), S | H),
+    f("rt-overflow:fn-arg", "PRINT ZFn%(1, ZL& + 0)", SET_ZL, Exp::Run(6), S | H),
+    f("rt-subscript:assign", "ZA%(9) = 1", DIM_ZA2, Exp::Run(9), S),
+    f("rt-subscript:print", "PRINT ZA%(9)", DIM_ZA2, Exp::Run(9), S),
+    f("rt-subscript:negative-nested", "ZQ% = 1 + ZA%(-1)", DIM_ZA2, Exp::Run(9), S),
+    f("rt-subscript:second-dimension", "ZB%(1, 3) = 1", &["DIM ZB%(1 TO 2, 1 TO 2)"], Exp::Run(9), S),
+    f("rt-subscript:variable-index", "ZA%(ZN%) = ZN%", &["DIM ZA%(2)", "ZN% = 5"], Exp::Run(9), S),
+    f("rt-subscript:string-array", "ZQ$ = ZA$(3) + \"x\"", &["DIM ZA$(2)"], Exp::Run(9), S),
+    f("rt-illegal-function-call:left", "ZT$ = LEFT$(\"abc\", ZN%)", SET_ZN, Exp::Run(5), S),
+    f("rt-illegal-function-call:right", "ZT$ = RIGHT$(\"abc\", ZN%)", SET_ZN, Exp::Run(5), S),
+    f("rt-illegal-function-call:string", "ZT$ = STRING$(ZN%, \"a\")", SET_ZN, Exp::Run(5), S),
+    f("rt-illegal-function-call:space", "ZT$ = SPACE$(ZN%)", SET_ZN, Exp::Run(5), S),
+    f("rt-illegal-function-call:nested-concat", "PRINT \"a\" + LEFT$(\"abc\", ZN%)", SET_ZN, Exp::Run(5), S),
+    f("rt-illegal-function-call:nested-len", "PRINT LEN(LEFT$(\"abc\", ZN%))", SET_ZN, Exp::Run(5), S),
+    f("rt-illegal-function-call:mid-start-zero", "ZT$ = MID$(\"abc\", ZZ%)", &[], Exp::Run(5), S),
+    f("rt-illegal-function-call:instr-start-zero", "ZI% = INSTR(ZZ%, \"abc\", \"b\")", &[], Exp::Run(5), S),
+    f("rt-return-without-gosub:return", "RETURN", &[], Exp::Run(3), S),
+    f("rt-resume-without-error:resume", "RESUME", &[], Exp::Run(20), S | MO),
+    f("rt-resume-without-error:resume-next", "RESUME NEXT", &[], Exp::Run(20), S | MO),
+    f("rt-out-of-data:read", "READ ZI%", &[], Exp::Run(4), S),
+    f("rt-bad-file-number:print", "PRINT #2, \"x\"", &[], Exp::Run(52), S),
+    f("rt-file-not-found:open", "OPEN \"zznofile.txt\" FOR INPUT AS #1", &[], Exp::Run(53), S),
+    f("rt-file-not-found:kill", "KILL \"zznofile.txt\"", &[], Exp::Run(53), S),
+    f("rt-file-not-found:name", "NAME \"zzno1\" AS \"zzno2\"", &[], Exp::Run(53), S),
+];
+
+fn group_of(kind: &str) -> &str {
+    kind.split(':').next().unwrap_or(kind)
+}
+
+fn catalogue_entry(name: &str) -> Option<&'static Fault> {
+    CATALOGUE.iter().find(|f| f.name == name)
+}
+
+fn exp_json(e: &Exp) -> Value {
+    match e {
+        Exp::Parse => json!({"stage": "parse"}),
+        Exp::Lint(v) => json!({"stage": "lint", "variants": v}),
+        Exp::Run(c) => json!({"stage": "run", "code": c}),
+    }
+}
 
 pub fn random_layout(t: &mut Tape) -> Layout {
     Layout {
@@ -33,44 +403,131 @@ pub fn random_layout(t: &mut Tape) -> Layout {
     }
 }
 
-fn make_fault(kind: &str, prog: &mut Program, scope: Option<usize>) -> Stmt {
-    let lit = |v: i64| Expr::Lit(Lit::Whole(v));
+/// What must be added to the faulted scope in front of the fault (at the start of the scope's body).
+struct Injected {
+    stmt: Stmt,
+    /// statements inserted at the start of the faulted scope's body
+    pre: Vec<Stmt>,
+}
+
+fn lit(v: i64) -> Expr {
+    Expr::Lit(Lit::Whole(v))
+}
+
+fn neg_lit(v: i64) -> Expr {
+    Expr::Un(UnOp::Neg, Box::new(lit(v)))
+}
+
+fn add_array(prog: &mut Program, scope: Option<usize>, name: &str, hi: i32) -> (usize, Stmt) {
+    let vars = match scope {
+        None => &mut prog.vars,
+        Some(p) => &mut prog.procs[p].vars,
+    };
+    vars.push(VarInfo { name: name.into(), sty: STy::B(Ty::Int), bounds: vec![(0, hi)], shared: false });
+    let idx = vars.len() - 1;
+    (idx, Stmt::Dim(Dim { var: idx, name: name.into(), bounds: vec![(0, hi)], explicit_lower: false, sty: STy::B(Ty::Int), extended: false, shared: false, redim: 0 }))
+}
+
+/// The helper procedures of the catalogue (`ZSb`, `ZFn%`), added once.
+fn add_helpers(prog: &mut Program) {
+    if prog.procs.iter().any(|p| p.name == "ZSb") {
+        return;
+    }
+    let params = || vec![Param { name: "ZPA%".into(), var: 0, sty: STy::B(Ty::Int), array: false, extended: false }, Param { name: "ZPB%".into(), var: 1, sty: STy::B(Ty::Int), array: false, extended: false }];
+    let vars = || vec![VarInfo { name: "ZPA%".into(), sty: STy::B(Ty::Int), bounds: vec![], shared: false }, VarInfo { name: "ZPB%".into(), sty: STy::B(Ty::Int), bounds: vec![], shared: false }];
+    let pa = LValue { name: "ZPA%".into(), var: 0, index: vec![], fields: vec![], sty: STy::B(Ty::Int) };
+    let pb = LValue { name: "ZPB%".into(), var: 1, index: vec![], fields: vec![], sty: STy::B(Ty::Int) };
+    prog.procs.push(Proc { name: "ZSb".into(), ret: None, params: params(), is_static: false, body: vec![Stmt::Print(vec![PrintItem::E(Expr::Load(pa.clone())), PrintItem::Semi, PrintItem::E(Expr::Load(pb.clone()))])], vars: vars(), result_var: None });
+    let mut fv = vars();
+    fv.push(VarInfo { name: "ZFn%".into(), sty: STy::B(Ty::Int), bounds: vec![], shared: false });
+    let res = LValue { name: "ZFn%".into(), var: 2, index: vec![], fields: vec![], sty: STy::B(Ty::Int) };
+    prog.procs.push(Proc { name: "ZFn%".into(), ret: Some(Ty::Int), params: params(), is_static: false, body: vec![Stmt::Assign(res, Expr::Bin(BinOp::Add, Box::new(Expr::Load(pa)), Box::new(Expr::Load(pb))))], vars: fv, result_var: Some(2) });
+}
+
+fn add_record_type(prog: &mut Program) {
+    if !prog.types.iter().any(|t| t.name == "ZT") {
+        prog.types.push(RecType { name: "ZT".into(), fields: vec![("ZA".into(), STy::B(Ty::Int)), ("ZS".into(), STy::Fixed(4))] });
+    }
+}
+
+/// A statement of the catalogue as IR: labels stay labels (they must start their line), everything else is verbatim text.
+fn text_stmt(text: &str) -> Stmt {
+    if text.ends_with(':') && !text.contains(' ') { Stmt::Label(text[..text.len() - 1].to_string()) } else { Stmt::Raw(text.to_string()) }
+}
+
+fn make_fault(kind: &str, prog: &mut Program, scope: Option<usize>) -> Injected {
+    let raw = |s: &str| Injected { stmt: Stmt::Raw(s.into()), pre: vec![] };
+    if let Some(cf) = catalogue_entry(kind) {
+        if cf.fl & H != 0 {
+            add_helpers(prog);
+        }
+        if cf.fl & T != 0 {
+            add_record_type(prog);
+        }
+        return Injected { stmt: text_stmt(cf.text), pre: cf.pre.iter().map(|p| text_stmt(p)).collect() };
+    }
     match kind {
-        "syntax-double-equals" => Stmt::Raw("ZQ = = 1".into()),
-        "syntax-stray-paren" => Stmt::Raw("PRINT )".into()),
-        "syntax-dangling-operator" => Stmt::Raw("ZQ = 1 +".into()),
-        "syntax-bad-for" => Stmt::Raw("ZQ = 1 2".into()),
-        "type-mismatch" => Stmt::Raw("ZQ% = \"abc\"".into()),
-        "undefined-label" => Stmt::Raw("GOTO ZNoSuchLabel".into()),
-        "argument-count" => Stmt::Raw("ZQ% = LEN(\"a\", \"b\")".into()),
+        "syntax-double-equals" => raw("ZQ = = 1"),
+        "syntax-stray-paren" => raw("PRINT )"),
+        "syntax-dangling-operator" => raw("ZQ = 1 +"),
+        "syntax-bad-for" => raw("ZQ = 1 2"),
+        "type-mismatch" => raw("ZQ% = \"abc\""),
+        "undefined-label" => raw("GOTO ZNoSuchLabel"),
+        "argument-count" => raw("ZQ% = LEN(\"a\", \"b\")"),
         "division-by-zero" => {
             let f = add_scalar(prog, scope, "ZF!", Ty::Single);
             let z = add_scalar(prog, scope, "ZZ%", Ty::Int);
-            Stmt::Assign(f, Expr::Bin(BinOp::Div, Box::new(Expr::Lit(Lit::Frac { num: 3, shift: 1, double: false })), Box::new(Expr::Load(z))))
+            Injected { stmt: Stmt::Assign(f, Expr::Bin(BinOp::Div, Box::new(Expr::Lit(Lit::Frac { num: 3, shift: 1, double: false })), Box::new(Expr::Load(z)))), pre: vec![] }
+        }
+        "mod-by-zero" => {
+            // in a PRINT list, nested in parentheses
+            let z = add_scalar(prog, scope, "ZZ%", Ty::Int);
+            let e = Expr::Bin(BinOp::Add, Box::new(lit(2)), Box::new(Expr::Paren(Box::new(Expr::Bin(BinOp::Mod, Box::new(lit(7)), Box::new(Expr::Load(z)))))));
+            Injected { stmt: Stmt::Print(vec![PrintItem::E(Expr::Lit(Lit::Str("zm".into()))), PrintItem::Semi, PrintItem::E(e)]), pre: vec![] }
         }
         "overflow" => {
             let i = add_scalar(prog, scope, "ZI%", Ty::Int);
-            Stmt::Assign(i, lit(40000))
+            Injected { stmt: Stmt::Assign(i, lit(40000)), pre: vec![] }
+        }
+        "overflow-in-expression" => {
+            // INTEGER * INTEGER beyond 32767, the target is wide enough: the operator fails, not the assignment
+            let j = add_scalar(prog, scope, "ZJ%", Ty::Int);
+            let l = add_scalar(prog, scope, "ZW&", Ty::Long);
+            Injected { stmt: Stmt::Assign(l, Expr::Bin(BinOp::Mul, Box::new(Expr::Load(j.clone())), Box::new(Expr::Load(j.clone())))), pre: vec![Stmt::Assign(j, lit(300))] }
         }
         "subscript-out-of-range" => {
-            // the array is DIMmed at the start of the scope's body
-            let vars = match scope {
-                None => &mut prog.vars,
-                Some(p) => &mut prog.procs[p].vars,
-            };
-            vars.push(VarInfo { name: "ZA%".into(), sty: STy::B(Ty::Int), bounds: vec![(0, 2)], shared: false });
-            let idx = vars.len() - 1;
-            Stmt::Assign(LValue { name: "ZA%".into(), var: idx, index: vec![lit(9)], fields: vec![], sty: STy::B(Ty::Int) }, lit(1))
+            let (idx, dim) = add_array(prog, scope, "ZA%", 2);
+            Injected { stmt: Stmt::Assign(LValue { name: "ZA%".into(), var: idx, index: vec![lit(9)], fields: vec![], sty: STy::B(Ty::Int) }, lit(1)), pre: vec![dim] }
+        }
+        "subscript-out-of-range-read" => {
+            let (idx, dim) = add_array(prog, scope, "ZA%", 2);
+            let q = add_scalar(prog, scope, "ZQ%", Ty::Int);
+            let el = LValue { name: "ZA%".into(), var: idx, index: vec![neg_lit(1)], fields: vec![], sty: STy::B(Ty::Int) };
+            Injected { stmt: Stmt::Assign(q, Expr::Bin(BinOp::Add, Box::new(lit(1)), Box::new(Expr::Load(el)))), pre: vec![dim] }
+        }
+        "illegal-function-call" => {
+            let n = add_scalar(prog, scope, "ZN%", Ty::Int);
+            let s = add_scalar(prog, scope, "ZT$", Ty::Str);
+            let call = Expr::BuiltIn { name: "LEFT$".into(), args: vec![Expr::Lit(Lit::Str("abc".into())), Expr::Load(n.clone())], ty: Ty::Str };
+            Injected { stmt: Stmt::Assign(s, Expr::Bin(BinOp::Add, Box::new(Expr::Lit(Lit::Str("a".into()))), Box::new(call))), pre: vec![Stmt::Assign(n, neg_lit(1))] }
         }
         other => panic!("unknown fault {}", other),
     }
 }
 
 fn is_runtime(kind: &str) -> bool {
-    matches!(kind, "division-by-zero" | "subscript-out-of-range" | "overflow")
+    IR_RUNTIME.contains(&kind) || matches!(catalogue_entry(kind), Some(Fault { exp: Exp::Run(_), .. }))
 }
 
-fn expected_static(kind: &str, e: &FrontErr) -> bool {
+/// The expected error family of a static fault as recorded in the inputs (`expect`), legacy kinds by name.
+fn expected_static(kind: &str, expect: &Value, e: &FrontErr) -> bool {
+    if let Some(stage) = expect["stage"].as_str() {
+        return match (stage, e) {
+            ("parse", FrontErr::Parse { .. }) => true,
+            ("lint", FrontErr::Lint { variant, .. }) => expect["variants"].as_array().map(|a| a.iter().any(|v| v.as_str() == Some(variant.as_str()))).unwrap_or(false),
+            _ => false,
+        };
+    }
     match (kind, e) {
         (k, FrontErr::Parse { .. }) if k.starts_with("syntax") => true,
         ("type-mismatch", FrontErr::Lint { variant, .. }) => variant == "TypeMismatch" || variant == "ArgumentTypeMismatch",
@@ -80,18 +537,124 @@ fn expected_static(kind: &str, e: &FrontErr) -> bool {
     }
 }
 
+// ------------------------------------------------------------------------------------------------
+// Line-ending conventions (the printer renders with LF; the endings are applied afterwards, line by line)
+// ------------------------------------------------------------------------------------------------
+
+#[derive(Clone, Copy, Debug, PartialEq, Eq)]
+pub enum EolMode {
+    Lf,
+    CrLf,
+    Cr,
+    /// LF, CRLF and CR in rotation, starting with the given offset
+    Mixed(u8),
+    /// LF, CRLF and CR chosen pseudo-randomly per line
+    Random(u64),
+}
+
+impl EolMode {
+    fn name(&self) -> String {
+        match self {
+            EolMode::Lf => "Lf".into(),
+            EolMode::CrLf => "CrLf".into(),
+            EolMode::Cr => "Cr".into(),
+            EolMode::Mixed(k) => format!("Mixed{}", k),
+            EolMode::Random(_) => "Mixed".into(),
+        }
+    }
+}
+
+/// Finalizer over `hash64` (FNV-1a): its low bits alone are too regular for `% n` over small tuples.
+fn mix(mut h: u64) -> u64 {
+    h ^= h >> 33;
+    h = h.wrapping_mul(0xff51afd7ed558ccd);
+    h ^= h >> 33;
+    h = h.wrapping_mul(0xc4ceb9fe1a85ec53);
+    h ^ (h >> 33)
+}
+
+/// Joins lines with the endings of the mode. Every ending ends exactly one row: a CR is never followed directly by an LF
+/// that is meant as a row of its own (an empty line after a CR-terminated line is not terminated by a bare LF).
+pub fn join_lines(lines: &[String], mode: EolMode, final_eol: bool) -> String {
+    let mut out = String::new();
+    let mut prev_cr = false;
+    for (i, l) in lines.iter().enumerate() {
+        out.push_str(l);
+        if i + 1 == lines.len() && !final_eol {
+            break;
+        }
+        let mut e = match mode {
+            EolMode::Lf => "\n",
+            EolMode::CrLf => "\r\n",
+            EolMode::Cr => "\r",
+            EolMode::Mixed(k) => ["\n", "\r\n", "\r"][(i + k as usize) % 3],
+            EolMode::Random(s) => ["\n", "\r\n", "\r"][(mix(hash64(&(s, i as u64))) % 3) as usize],
+        };
+        if e == "\n" && l.is_empty() && prev_cr {
+            e = "\r";
+        }
+        out.push_str(e);
+        prev_cr = e == "\r";
+    }
+    out
+}
+
+/// Re-terminates a text rendered with LF endings.
+fn with_endings(text_lf: &str, mode: EolMode) -> String {
+    let final_eol = text_lf.ends_with('\n');
+    let body = if final_eol { &text_lf[..text_lf.len() - 1] } else { text_lf };
+    let lines: Vec<String> = body.split('\n').map(|s| s.to_string()).collect();
+    join_lines(&lines, mode, final_eol)
+}
+
 struct Built {
     r: Rendered,
     fault_path: String,
     depth: usize,
     in_proc: bool,
     prog: Program,
+    eol: EolMode,
+    expect: Value,
 }
 
-fn build(tape: &[u32], with_calls: bool) -> Option<(Built, String, Layout)> {
+fn shift_path(path: &str, by: usize) -> String {
+    let mut parts: Vec<String> = path.split('/').map(|s| s.to_string()).collect();
+    let k: usize = parts[1].parse().unwrap();
+    parts[1] = (k + by).to_string();
+    parts.join("/")
+}
+
+enum BuildOut {
+    Ok(Built, String, Layout),
+    Discard(&'static str),
+}
+
+fn build(tape: &[u32], with_calls: bool) -> BuildOut {
     let mut t = Tape::new(tape);
-    let kind = FAULTS[t.choose(FAULTS.len())];
-    let lay = random_layout(&mut t);
+    // fault family first: the original static faults, run-time faults (IR), the catalogue's static faults (two shares)
+    let statics: Vec<&'static Fault> = CATALOGUE.iter().filter(|f| !matches!(f.exp, Exp::Run(_))).collect();
+    let kind: &'static str = match t.choose(4) {
+        0 => LEGACY_STATIC[t.choose(LEGACY_STATIC.len())],
+        1 => IR_RUNTIME[t.choose(IR_RUNTIME.len())],
+        _ => statics[t.choose(statics.len())].name,
+    };
+    let mut lay = random_layout(&mut t);
+    let mut eol = match lay.eol {
+        Eol::Lf => EolMode::Lf,
+        Eol::CrLf => EolMode::CrLf,
+        Eol::Cr => EolMode::Cr,
+    };
+    if t.chance(1, 4) {
+        eol = EolMode::Random(lay.seed);
+    }
+    lay.eol = Eol::Lf;
+    let cat = catalogue_entry(kind);
+    let fl = cat.map(|f| f.fl).unwrap_or(S);
+    if fl & TAIL != 0 {
+        // nothing may follow the statement on its line
+        lay.colons = 0;
+        lay.comments = 0;
+    }
     let which = t.raw();
     let used = t.used();
     let mut cfg = GenCfg::core(14, 3);
@@ -108,27 +671,38 @@ fn build(tape: &[u32], with_calls: bool) -> Option<(Built, String, Layout)> {
     };
     let n = count_slots(&prog);
     if n == 0 {
-        return None;
+        return BuildOut::Discard("no replaceable statement");
     }
     let target = ((which as u64 * n as u64) >> 32) as usize;
-    let needs_dim = kind == "subscript-out-of-range";
-    let mut scope_of_fault: Option<Option<usize>> = None;
-    let (path, depth, scope) = replace_slot(&mut prog, target, &mut |p, scope| {
-        scope_of_fault = Some(scope);
-        make_fault(kind, p, scope)
-    })?;
+    let mut injected_pre: Vec<Stmt> = vec![];
+    let Some((path, depth, scope)) = replace_slot(&mut prog, target, &mut |p, scope| {
+        let inj = make_fault(kind, p, scope);
+        injected_pre = inj.pre;
+        inj.stmt
+    }) else {
+        return BuildOut::Discard("no replaceable statement");
+    };
+    // placement rules of the fault
+    let top_level = path.split('/').count() == 2;
+    if fl & NB != 0 && !top_level {
+        return BuildOut::Discard("stray block closer: slot inside a block");
+    }
+    let scope_is_fn = scope.map(|p| prog.procs[p].ret.is_some());
+    if (fl & MO != 0 && scope.is_some()) || (fl & SO != 0 && scope_is_fn != Some(false)) || (fl & FO != 0 && scope_is_fn != Some(true)) {
+        return BuildOut::Discard("fault kind not defined in the slot's scope");
+    }
     let mut fault_path = path;
-    if needs_dim {
-        // DIM at the start of the scope: shifts the first path component index by one
-        let (vars_len, body): (usize, &mut Vec<Stmt>) = match scope {
-            None => (prog.vars.len(), &mut prog.main),
-            Some(p) => (prog.procs[p].vars.len(), &mut prog.procs[p].body),
+    if !injected_pre.is_empty() {
+        // declarations / values at the start of the scope: shifts the first path component index
+        let npre = injected_pre.len();
+        let body: &mut Vec<Stmt> = match scope {
+            None => &mut prog.main,
+            Some(p) => &mut prog.procs[p].body,
         };
-        body.insert(0, Stmt::Dim(Dim { var: vars_len - 1, name: "ZA%".into(), bounds: vec![(0, 2)], explicit_lower: false, sty: STy::B(Ty::Int), extended: false, shared: false, redim: 0 }));
-        let mut parts: Vec<String> = fault_path.split('/').map(|s| s.to_string()).collect();
-        let k: usize = parts[1].parse().unwrap();
-        parts[1] = (k + 1).to_string();
-        fault_path = parts.join("/");
+        for (k, st) in injected_pre.into_iter().enumerate() {
+            body.insert(k, st);
+        }
+        fault_path = shift_path(&fault_path, npre);
     }
     if with_calls && is_runtime(kind) && (which >> 3) % 3 == 0 {
         // earlier in the faulted scope a built-in fails and the error is handled (RESUME NEXT at module level); the handler is
@@ -149,16 +723,15 @@ fn build(tape: &[u32], with_calls: bool) -> Option<(Built, String, Layout)> {
         for (k, st) in pre.into_iter().enumerate() {
             body.insert(k, st);
         }
-        let mut parts: Vec<String> = fault_path.split('/').map(|s| s.to_string()).collect();
-        let k: usize = parts[1].parse().unwrap();
-        parts[1] = (k + npre).to_string();
-        fault_path = parts.join("/");
+        fault_path = shift_path(&fault_path, npre);
         prog.main.push(Stmt::End);
         prog.main.push(Stmt::Label("ZH1".into()));
         prog.main.push(Stmt::Resume(ResumeKind::Next));
     }
-    let r = render(&prog, &lay);
-    Some((Built { r, fault_path, depth, in_proc: scope.is_some(), prog }, kind.to_string(), lay))
+    let mut r = render(&prog, &lay);
+    r.text = with_endings(&r.text, eol);
+    let expect = cat.map(|f| exp_json(&f.exp)).unwrap_or(Value::Null);
+    BuildOut::Ok(Built { r, fault_path, depth, in_proc: scope.is_some(), prog, eol, expect }, kind.to_string(), lay)
 }
 
 fn site_json(r: &Rendered, path: &str) -> Value {
@@ -171,54 +744,89 @@ fn site_json(r: &Rendered, path: &str) -> Value {
 fn check_static(text: &str, kind: &str, site: &Value, inputs: Value) -> Result<(), Violation> {
     let row = site["row"].as_u64().unwrap_or(0) as u32;
     let (c0, c1) = (site["col_start"].as_u64().unwrap_or(0) as u32, site["col_end"].as_u64().unwrap_or(0) as u32);
+    let g = group_of(kind);
     match impl_run::front(text) {
-        Ok(_) => Err(Violation::new(format!("c11-accepted:{}", kind), "a program with an injected static fault was accepted", inputs).exp_obs(json!({"rejected at": site}), "accepted")),
+        Ok(_) => Err(Violation::new(format!("c11-accepted:{}", g), "a program with an injected static fault was accepted", inputs).exp_obs(json!({"rejected at": site}), "accepted")),
         Err(FrontErr::Panic { stage, info }) => Err(Violation::new(format!("panic:{}:{}", stage, info.sig()), "the faulted program made the parser/checker panic", inputs)),
         Err(e) => {
-            if !expected_static(kind, &e) {
-                return Err(Violation::new(format!("c11-error-family:{}:{}", kind, e.class()), "the injected fault is reported as an error of another family", inputs).exp_obs(kind, e.to_json()));
+            if !expected_static(kind, &inputs["expect"], &e) {
+                return Err(Violation::new(format!("c11-error-family:{}:{}", g, e.class()), "the injected fault is reported as an error of another family", inputs).exp_obs(kind, e.to_json()));
             }
             let (r, c) = e.pos().unwrap();
             if r != row {
-                return Err(Violation::new(format!("c11-row:{}", kind), format!("{} reported on row {} instead of row {}", kind, r, row), inputs).exp_obs(site.clone(), e.to_json()));
+                return Err(Violation::new(format!("c11-row:{}", g), format!("{} reported on row {} instead of row {}", kind, r, row), inputs).exp_obs(site.clone(), e.to_json()));
             }
-            if c < c0 || c > c1 + 1 {
-                return Err(Violation::new(format!("c11-col:{}", kind), format!("{} reported at column {} outside the statement's columns {}..{}", kind, c, c0, c1), inputs).exp_obs(site.clone(), e.to_json()));
+            // a syntax error may be found at the first character that follows the statement: one past its end, or - when blanks
+            // separate the statement from a comment / colon - where the next token starts
+            let slack = if matches!(e, FrontErr::Parse { .. }) { blanks_after(text, row, c1) } else { 0 };
+            if c < c0 || c > c1 + 1 + slack {
+                return Err(Violation::new(format!("c11-col:{}", g), format!("{} reported at column {} outside the statement's columns {}..{}", kind, c, c0, c1), inputs).exp_obs(site.clone(), e.to_json()));
             }
             Ok(())
         }
     }
+}
+
+/// Number of blanks / tabs that follow column `col` on row `row` (rows end at LF, CRLF or a bare CR).
+fn blanks_after(text: &str, row: u32, col: u32) -> u32 {
+    let chars: Vec<char> = text.chars().collect();
+    let (mut r, mut c, mut i, mut n) = (1u32, 1u32, 0usize, 0u32);
+    while i < chars.len() {
+        let ch = chars[i];
+        if ch == '\n' || (ch == '\r' && chars.get(i + 1) != Some(&'\n')) {
+            if r == row {
+                break;
+            }
+            r += 1;
+            c = 1;
+        } else if ch != '\r' {
+            if r == row && c > col {
+                if ch == ' ' || ch == '\t' {
+                    n += 1;
+                } else {
+                    break;
+                }
+            }
+            c += 1;
+        }
+        i += 1;
+    }
+    n
 }
 
 fn check_runtime(text: &str, kind: &str, code: i32, sites: &[Value], call_rows: &[u32], triggers: &[String], inputs: Value) -> Result<(), Violation> {
     let attributed = |d: String| triggers.first().cloned().unwrap_or(d);
+    let g = group_of(kind);
     let out = match impl_run::run_src(text, &RunOpts::budget(3_000_000)) {
-        Err(e) => return Err(Violation::new(attributed(format!("c11-rejected:{}:{}", kind, e.class())), "a well-formed program with an injected run-time fault was rejected", inputs).exp_obs("accepted", e.to_json())),
+        Err(e) => return Err(Violation::new(attributed(format!("c11-rejected:{}:{}", g, e.class())), "a well-formed program with an injected run-time fault was rejected", inputs).exp_obs("accepted", e.to_json())),
         Ok(o) => o,
     };
     match &out.end {
         End::Err { code: Some(c), pos, .. } if *c == code => {
-            let Some((r, col)) = pos.first().copied() else { return Err(Violation::new(format!("c11-no-position:{}", kind), "run-time error without position", inputs)) };
+            let Some((r, col)) = pos.first().copied() else { return Err(Violation::new(format!("c11-no-position:{}", g), "run-time error without position", inputs)) };
             let ok = sites.iter().any(|s| s["row"].as_u64() == Some(r as u64) && (col as u64) >= s["col_start"].as_u64().unwrap_or(0) && (col as u64) <= s["col_end"].as_u64().unwrap_or(0) + 1);
             if !ok {
                 let which = if sites.iter().any(|s| s["row"].as_u64() == Some(r as u64)) { "col" } else { "row" };
-                return Err(Violation::new(attributed(format!("c11-{}:{}", which, kind)), format!("{} reported at row {} col {} instead of the faulted statement", kind, r, col), inputs).exp_obs(json!(sites), out.end.to_json()));
+                return Err(Violation::new(attributed(format!("c11-{}:{}", which, g)), format!("{} reported at row {} col {} instead of the faulted statement", kind, r, col), inputs).exp_obs(json!(sites), out.end.to_json()));
             }
             let got: Vec<u32> = pos.iter().skip(1).map(|p| p.0).collect();
             if got != call_rows {
-                return Err(Violation::new(attributed(format!("c11-call-sites:{}", kind)), "the rows of the active call sites (innermost first, ending in the main module) differ", inputs).exp_obs(json!(call_rows), json!(got)));
+                return Err(Violation::new(attributed(format!("c11-call-sites:{}", g)), "the rows of the active call sites (innermost first, ending in the main module) differ", inputs).exp_obs(json!(call_rows), json!(got)));
             }
             Ok(())
         }
-        other => Err(Violation::new(attributed(format!("c11-wrong-end:{}", kind)), format!("expected run-time error {} at the faulted statement, observed {}", code, other.short()), inputs).exp_obs(json!({"code": code, "sites": sites}), other.to_json())),
+        other => Err(Violation::new(attributed(format!("c11-wrong-end:{}", g)), format!("expected run-time error {} at the faulted statement, observed {}", code, other.short()), inputs).exp_obs(json!({"code": code, "sites": sites}), other.to_json())),
     }
 }
 
 fn one_case(sh: &mut Shard, tape: &[u32], with_calls: bool) -> Result<(), Violation> {
-    let Some((b, kind, lay)) = build(tape, with_calls) else {
-        sh.eval();
-        sh.discard("no replaceable statement");
-        return Ok(());
+    let (b, kind, lay) = match build(tape, with_calls) {
+        BuildOut::Ok(b, k, l) => (b, k, l),
+        BuildOut::Discard(why) => {
+            sh.eval();
+            sh.discard(why);
+            return Ok(());
+        }
     };
     sh.eval();
     let site = site_json(&b.r, &b.fault_path);
@@ -226,12 +834,12 @@ fn one_case(sh: &mut Shard, tape: &[u32], with_calls: bool) -> Result<(), Violat
         panic!("c11: fault path {} has no site", b.fault_path);
     }
     let row = site["row"].as_u64().unwrap_or(0);
-    let decorated = lay.blank_lines > 0 || lay.comments > 0 || lay.colons > 0 || lay.eol != Eol::Lf || b.depth > 0 || b.in_proc;
+    let decorated = lay.blank_lines > 0 || lay.comments > 0 || lay.colons > 0 || b.eol != EolMode::Lf || b.depth > 0 || b.in_proc;
     sh.journal(&b.r.text);
-    let base_inputs = json!({"program": b.r.text, "fault": kind, "fault_site": site, "layout": lay.describe()});
+    let base_inputs = json!({"program": b.r.text, "fault": kind, "fault_site": site, "layout": format!("{} -> {}", lay.describe(), b.eol.name()), "expect": b.expect});
     if !is_runtime(&kind) {
-        sh.class(&format!("fault:{}", kind));
-        sh.class(&format!("eol:{:?}", lay.eol));
+        sh.class(&format!("fault:{}", group_of(&kind)));
+        sh.class(&format!("eol:{}", b.eol.name()));
         if b.r.sites.get(&b.fault_path).map(|s| s.after_colon).unwrap_or(false) {
             sh.class("fault-after-colon-or-decoration");
         }
@@ -256,7 +864,7 @@ fn one_case(sh: &mut Shard, tape: &[u32], with_calls: bool) -> Result<(), Violat
         return Ok(());
     };
     sh.class(&format!("fault:{}", kind));
-    sh.class(&format!("eol:{:?}", lay.eol));
+    sh.class(&format!("eol:{}", b.eol.name()));
     sh.class(&format!("call-depth:{}", e.call_sites.len()));
     let sites: Vec<Value> = e.paths.iter().map(|p| site_json(&b.r, p)).filter(|v| !v.is_null()).collect();
     let call_rows: Vec<u32> = e.call_sites.iter().filter_map(|p| b.r.sites.get(p)).map(|s| s.row).collect();
@@ -278,18 +886,425 @@ fn one_case(sh: &mut Shard, tape: &[u32], with_calls: bool) -> Result<(), Violat
     check_runtime(&b.r.text, &kind, e.code, &sites, &call_rows, &triggers, inputs)
 }
 
+// ------------------------------------------------------------------------------------------------
+// The fault x placement x line-ending matrix: small programs written line by line
+// ------------------------------------------------------------------------------------------------
+
+#[derive(Clone, Copy, Debug, PartialEq, Eq)]
+enum Ctx {
+    /// a line of its own in the main module
+    Main,
+    /// inside one block of the main module
+    Block1,
+    /// inside three nested blocks of the main module
+    Block3,
+    /// `statement: FAULT`
+    AfterColon,
+    /// `FAULT: statement`
+    BeforeColon,
+    /// `IF 1 THEN FAULT`
+    IfThen,
+    /// `IF 0 THEN statement ELSE FAULT`
+    IfElse,
+    /// in a SUB called from the main module
+    Sub,
+    /// in a FUNCTION called from an expression of the main module
+    Fn,
+    /// main -> FUNCTION (in a nested expression) -> SUB (argument expression) -> FUNCTION (inside a loop), fault inside a block
+    Deep,
+}
+
+const CTXS: [Ctx; 10] = [Ctx::Main, Ctx::Block1, Ctx::Block3, Ctx::AfterColon, Ctx::BeforeColon, Ctx::IfThen, Ctx::IfElse, Ctx::Sub, Ctx::Fn, Ctx::Deep];
+
+fn ctx_allowed(f: &Fault, c: Ctx) -> bool {
+    let fl = f.fl;
+    let in_proc = matches!(c, Ctx::Sub | Ctx::Fn | Ctx::Deep);
+    if fl & MO != 0 && in_proc {
+        return false;
+    }
+    if fl & SO != 0 && c != Ctx::Sub {
+        return false;
+    }
+    if fl & FO != 0 && c != Ctx::Fn && c != Ctx::Deep {
+        return false;
+    }
+    match c {
+        Ctx::Main | Ctx::Sub | Ctx::Fn => true,
+        Ctx::Block1 | Ctx::Block3 | Ctx::Deep => fl & NB == 0,
+        Ctx::AfterColon => fl & LS == 0,
+        Ctx::BeforeColon => fl & S != 0 && fl & TAIL == 0,
+        Ctx::IfThen | Ctx::IfElse => fl & S != 0,
+    }
+}
+
+#[derive(Clone, Copy, Debug, PartialEq, Eq)]
+enum Pos {
+    /// as early in the file as the fault allows (row 1 when nothing must precede it)
+    First,
+    Middle,
+    /// as late in the file as the context allows (the last row for the main-module contexts without a block)
+    Last,
+}
+
+#[derive(Clone, Copy, PartialEq)]
+enum Mark {
+    None,
+    /// the fault statement starts at this 0-based character index of the line and has this many characters
+    Fault(usize, usize),
+    /// a call site of the chain that leads to the fault; larger = further in
+    Call(u32),
+}
+
+type Seg = Vec<(String, Mark)>;
+
+fn plain(seg: &mut Seg, s: &str) {
+    seg.push((s.to_string(), Mark::None));
+}
+
+const BLOCKS: [(&[&str], &[&str]); 6] = [
+    (&["FOR ZK6% = 1 TO 2"], &["NEXT"]),
+    (&["IF 1 THEN"], &["END IF"]),
+    (&["WHILE ZK7% = 0"], &["WEND"]),
+    (&["DO"], &["LOOP UNTIL 1"]),
+    (&["SELECT CASE 1", "CASE 1"], &["END SELECT"]),
+    (&["IF 0 THEN", "  ZK5% = 0", "ELSE"], &["END IF"]),
+];
+
+/// The fault in its syntactic form: lines of one scope, the fault line marked.
+fn construct(f: &Fault, form: Ctx, indent: &str, variant: u32) -> Seg {
+    let mut seg: Seg = vec![];
+    let n = f.text.chars().count();
+    let fault_line = |prefix: String, suffix: &str| -> (String, Mark) {
+        let at = prefix.chars().count();
+        (format!("{}{}{}", prefix, f.text, suffix), Mark::Fault(at, n))
+    };
+    let depth = match form {
+        Ctx::Block1 | Ctx::Deep => 1,
+        Ctx::Block3 => 3,
+        _ => 0,
+    };
+    let mut closers: Vec<String> = vec![];
+    let mut ind = indent.to_string();
+    for d in 0..depth {
+        let (open, close) = BLOCKS[(variant as usize + d * 5) % BLOCKS.len()];
+        for o in open {
+            seg.push((format!("{}{}", ind, o), Mark::None));
+        }
+        for c in close {
+            closers.push(format!("{}{}", ind, c));
+        }
+        ind.push_str("  ");
+    }
+    // labels start in column 1
+    let own_indent = if f.fl & LS != 0 { String::new() } else { ind.clone() };
+    match form {
+        Ctx::AfterColon => seg.push(fault_line(format!("{}ZK5% = 5: ", ind), "")),
+        Ctx::BeforeColon => seg.push(fault_line(ind.clone(), ": ZK5% = 5")),
+        // a syntax error in a branch may be found where the branch begins (right after THEN / ELSE): the statement is the IF line
+        Ctx::IfThen | Ctx::IfElse => {
+            let head = if form == Ctx::IfThen { "IF 1 THEN " } else { "IF 0 THEN ZK5% = 0 ELSE " };
+            let (l, m) = fault_line(format!("{}{}", ind, head), "");
+            let m = match (m, f.exp) {
+                (Mark::Fault(at, n), Exp::Parse) => Mark::Fault(ind.chars().count(), at + n - ind.chars().count()),
+                (m, _) => m,
+            };
+            seg.push((l, m));
+        }
+        _ => seg.push(fault_line(own_indent, "")),
+    }
+    for c in closers.into_iter().rev() {
+        seg.push((c, Mark::None));
+    }
+    seg
+}
+
+/// The statements of the fault's scope: fillers, the fault's declarations, the fault construct, fillers.
+fn scope_lines(f: &Fault, form: Ctx, pos: Pos, indent: &str, variant: u32) -> Seg {
+    let mut seg: Seg = vec![];
+    if pos != Pos::First {
+        plain(&mut seg, &format!("{}ZK1% = 1", indent));
+        if variant % 2 == 0 {
+            plain(&mut seg, &format!("{}' a remark with a \"quoted\" word", indent));
+        }
+        if variant % 3 != 0 {
+            plain(&mut seg, "");
+        }
+        plain(&mut seg, &format!("{}PRINT \"f\"; ZK1%: ZK2% = 2", indent));
+    }
+    for p in f.pre {
+        let own = if p.ends_with(':') { "" } else { indent };
+        plain(&mut seg, &format!("{}{}", own, p));
+    }
+    seg.extend(construct(f, form, indent, variant));
+    if pos != Pos::Last {
+        plain(&mut seg, &format!("{}ZK3% = 3", indent));
+        plain(&mut seg, &format!("{}PRINT \"g\"; ZK3%", indent));
+    }
+    seg
+}
+
+pub struct LineProgram {
+    pub lines: Vec<String>,
+    pub row: u32,
+    pub col_start: u32,
+    pub col_end: u32,
+    /// rows of the active call sites, innermost first
+    pub call_rows: Vec<u32>,
+}
+
+fn line_program(f: &Fault, ctx: Ctx, pos: Pos, variant: u32) -> LineProgram {
+    let mut declares: Seg = vec![];
+    let mut types: Seg = vec![];
+    let mut helpers: Seg = vec![];
+    if f.fl & T != 0 {
+        for l in ["TYPE ZT", "  ZA AS INTEGER", "  ZS AS STRING * 4", "END TYPE"] {
+            plain(&mut types, l);
+        }
+    }
+    if f.fl & H != 0 {
+        for l in ["SUB ZSb (ZPA%, ZPB%)", "  PRINT ZPA%; ZPB%", "END SUB", "FUNCTION ZFn% (ZPA%, ZPB%)", "  ZFn% = ZPA% + ZPB%", "END FUNCTION"] {
+            plain(&mut helpers, l);
+        }
+        plain(&mut declares, "DECLARE SUB ZSb (ZPA%, ZPB%)");
+        plain(&mut declares, "DECLARE FUNCTION ZFn% (ZPA%, ZPB%)");
+    }
+    let in_proc = matches!(ctx, Ctx::Sub | Ctx::Fn | Ctx::Deep);
+    let mut main: Seg = vec![];
+    // procedures of the call chain, outermost first
+    let mut chain: Vec<Seg> = vec![];
+    if !in_proc {
+        main = scope_lines(f, ctx, pos, "", variant);
+    } else {
+        plain(&mut main, "ZK1% = 1");
+        if variant % 2 == 1 {
+            plain(&mut main, "PRINT \"m\"; ZK1% ' before the call");
+        }
+        match ctx {
+            Ctx::Sub => {
+                let call = ["ZCa 7", "CALL ZCa(7)", "IF 1 THEN ZCa 7", "ZK5% = 5: ZCa 7"][variant as usize % 4];
+                main.push((call.to_string(), Mark::Call(0)));
+                plain(&mut declares, "DECLARE SUB ZCa (ZP1%)");
+                let mut p: Seg = vec![];
+                plain(&mut p, "SUB ZCa (ZP1%)");
+                p.extend(scope_lines(f, Ctx::Main, pos, "  ", variant));
+                plain(&mut p, "END SUB");
+                chain.push(p);
+            }
+            Ctx::Fn => {
+                let call = ["ZK5% = 1 + ZCf%(2) * 2", "PRINT LEN(STR$(ZCf%(2)))", "IF ZCf%(2) > 0 THEN PRINT 1", "PRINT \"r\"; ZCf%(ZCf%(2))"][variant as usize % 4];
+                main.push((call.to_string(), Mark::Call(0)));
+                plain(&mut declares, "DECLARE FUNCTION ZCf% (ZP1%)");
+                let mut p: Seg = vec![];
+                plain(&mut p, "FUNCTION ZCf% (ZP1%)");
+                if pos == Pos::Last {
+                    plain(&mut p, "  ZCf% = ZP1%");
+                }
+                p.extend(scope_lines(f, Ctx::Main, pos, "  ", variant));
+                if pos != Pos::Last {
+                    plain(&mut p, "  ZCf% = ZP1%");
+                }
+                plain(&mut p, "END FUNCTION");
+                chain.push(p);
+            }
+            _ => {
+                let call = ["PRINT LEN(STR$(ZCf%(2))); ZK1%", "IF 1 THEN PRINT ZCf%(2)", "ZK5% = (ZCf%(2) + 1) * 2"][variant as usize % 3];
+                main.push((call.to_string(), Mark::Call(0)));
+                plain(&mut declares, "DECLARE FUNCTION ZCf% (ZP1%)");
+                plain(&mut declares, "DECLARE SUB ZCb (ZP1%, ZP2$)");
+                plain(&mut declares, "DECLARE FUNCTION ZCg% (ZP1%)");
+                let mut p1: Seg = vec![];
+                plain(&mut p1, "FUNCTION ZCf% (ZP1%)");
+                plain(&mut p1, "  PRINT \"in f\"");
+                p1.push(("  ZCb ZP1% + 1, \"x\"".to_string(), Mark::Call(1)));
+                plain(&mut p1, "  ZCf% = ZP1%");
+                plain(&mut p1, "END FUNCTION");
+                let mut p2: Seg = vec![];
+                plain(&mut p2, "SUB ZCb (ZP1%, ZP2$)");
+                plain(&mut p2, "  FOR ZK6% = 1 TO 2");
+                p2.push(("    ZK8% = ZCg%(ZK6%) + 1".to_string(), Mark::Call(2)));
+                plain(&mut p2, "  NEXT");
+                plain(&mut p2, "END SUB");
+                let mut p3: Seg = vec![];
+                plain(&mut p3, "FUNCTION ZCg% (ZP1%)");
+                if pos == Pos::Last {
+                    plain(&mut p3, "  ZCg% = ZP1%");
+                }
+                p3.extend(scope_lines(f, Ctx::Deep, pos, "  ", variant));
+                if pos != Pos::Last {
+                    plain(&mut p3, "  ZCg% = ZP1%");
+                }
+                plain(&mut p3, "END FUNCTION");
+                chain.push(p1);
+                chain.push(p2);
+                chain.push(p3);
+            }
+        }
+        plain(&mut main, "ZK9% = 9");
+    }
+    // file order
+    let mut all: Seg = vec![];
+    if pos == Pos::Middle && variant % 2 == 0 {
+        all.extend(declares);
+    }
+    all.extend(types);
+    if !in_proc {
+        if pos == Pos::Last {
+            all.extend(helpers);
+            all.extend(main);
+        } else {
+            all.extend(main);
+            all.extend(helpers);
+        }
+    } else {
+        match pos {
+            Pos::First => {
+                // the faulted procedure first, its callers after it, the main module after all of them
+                for p in chain.into_iter().rev() {
+                    all.extend(p);
+                }
+                all.extend(main);
+                all.extend(helpers);
+            }
+            Pos::Middle => {
+                if variant % 4 < 2 {
+                    all.extend(main);
+                    for p in chain {
+                        all.extend(p);
+                    }
+                    all.extend(helpers);
+                } else {
+                    all.extend(helpers);
+                    for p in chain {
+                        all.extend(p);
+                    }
+                    all.extend(main);
+                }
+            }
+            Pos::Last => {
+                all.extend(main);
+                all.extend(helpers);
+                for p in chain {
+                    all.extend(p);
+                }
+            }
+        }
+    }
+    let mut row = 0;
+    let mut cols = (0, 0);
+    let mut calls: Vec<(u32, u32)> = vec![];
+    for (i, (_, m)) in all.iter().enumerate() {
+        match m {
+            Mark::Fault(at, n) => {
+                row = i as u32 + 1;
+                cols = (*at as u32 + 1, (*at + *n) as u32);
+            }
+            Mark::Call(k) => calls.push((*k, i as u32 + 1)),
+            Mark::None => {}
+        }
+    }
+    calls.sort_by(|a, b| b.0.cmp(&a.0));
+    LineProgram { lines: all.into_iter().map(|(l, _)| l).collect(), row, col_start: cols.0, col_end: cols.1, call_rows: calls.into_iter().map(|c| c.1).collect() }
+}
+
+const EOLS: [EolMode; 6] = [EolMode::Lf, EolMode::CrLf, EolMode::Cr, EolMode::Mixed(0), EolMode::Mixed(1), EolMode::Mixed(2)];
+/// (position, final line end)
+const PLACES: [(Pos, bool); 6] = [(Pos::First, true), (Pos::Middle, true), (Pos::Last, true), (Pos::Last, false), (Pos::First, false), (Pos::Middle, false)];
+
+fn matrix_case(sh: &mut Shard, f: &Fault, ctx: Ctx, pos: Pos, final_eol: bool, eol: EolMode, variant: u32) -> Result<(), Violation> {
+    let lp = line_program(f, ctx, pos, variant);
+    let text = join_lines(&lp.lines, eol, final_eol);
+    sh.eval();
+    sh.class(&format!("matrix:fault:{}", group_of(f.name)));
+    sh.class(&format!("matrix:eol:{}", eol.name()));
+    sh.class(&format!("matrix:ctx:{:?}", ctx));
+    sh.class(&format!("matrix:place:{:?}{}", pos, if final_eol { "" } else { "-no-final-eol" }));
+    if lp.row == 1 {
+        sh.class("matrix:fault-on-row-1");
+    }
+    if lp.row as usize == lp.lines.len() {
+        sh.class(if final_eol { "matrix:fault-on-last-row" } else { "matrix:fault-on-last-row-no-final-eol" });
+    }
+    if !(ctx == Ctx::Main && eol == EolMode::Lf && pos == Pos::First) {
+        sh.nontrivial(hash64(&(&text, f.name)));
+    }
+    sh.journal(&text);
+    let site = json!({"row": lp.row, "col_start": lp.col_start, "col_end": lp.col_end});
+    let mut inputs = json!({"program": text, "fault": f.name, "fault_site": site, "layout": format!("matrix {:?} {:?} final_eol={} {} variant={}", ctx, pos, final_eol, eol.name(), variant), "expect": exp_json(&f.exp)});
+    match f.exp {
+        Exp::Run(code) => {
+            sh.class(&format!("matrix:call-depth:{}", lp.call_rows.len()));
+            inputs["kind"] = json!("runtime");
+            inputs["code"] = json!(code);
+            inputs["sites"] = json!([site]);
+            inputs["call_rows"] = json!(lp.call_rows);
+            inputs["triggers"] = json!([]);
+            sh.sample_sparse(211, || inputs.clone());
+            check_runtime(&text, f.name, code, &[site], &lp.call_rows, &[], inputs)
+        }
+        _ => {
+            inputs["kind"] = json!("static");
+            sh.sample_sparse(211, || inputs.clone());
+            check_static(&text, f.name, &site, inputs)
+        }
+    }
+}
+
+/// Quick: every fault x line ending x two of the first four placements (rotating with fault, line ending and seed), the
+/// context rotating over the ones the fault allows. Thorough: every fault x context x line ending x six placements (complete).
+fn matrix(sh: &mut Shard) {
+    let thorough = sh.tier.pick(false, true);
+    let mut index: u64 = 0;
+    for (fi, f) in CATALOGUE.iter().enumerate() {
+        let ctxs: Vec<Ctx> = CTXS.iter().copied().filter(|c| ctx_allowed(f, *c)).collect();
+        for (ei, eol) in EOLS.iter().enumerate() {
+            for (pi, (pos, final_eol)) in PLACES.iter().enumerate() {
+                let chosen: Vec<Ctx> = if thorough {
+                    ctxs.clone()
+                } else {
+                    if pi >= 4 || (pi as u64 + fi as u64 + ei as u64 + sh.seed) % 2 != 0 {
+                        continue;
+                    }
+                    let rot = mix(hash64(&(fi as u64, ei as u64, pi as u64, sh.seed)));
+                    vec![ctxs[(rot % ctxs.len() as u64) as usize]]
+                };
+                for ctx in chosen {
+                    index += 1;
+                    if !sh.mine(index) {
+                        continue;
+                    }
+                    let variant = (mix(hash64(&(sh.seed, index))) % 12) as u32;
+                    let r = matrix_case(sh, f, ctx, *pos, *final_eol, *eol, variant);
+                    if !sh.report(r) {
+                        return;
+                    }
+                }
+            }
+        }
+    }
+    if thorough {
+        sh.exhaustive("fault catalogue x context x line ending x placement");
+    }
+}
+
 impl Prop for C11 {
     fn id(&self) -> &'static str {
         "C11"
     }
     fn rule(&self) -> &'static str {
-        "Accepted generated programs (core programs and programs with SUB/FUNCTION call chains, 10-60 lines) are rendered under a random layout (keyword/identifier case, blanks/tabs, blank lines, comment lines, trailing comments, colon-joined statements, LF/CRLF/CR, with or without final line end) and ONE fault is injected by replacing a simple statement chosen anywhere (any nesting depth, main module or procedure): four syntax faults, a type mismatch, an undefined label, a wrong argument count, division by zero, subscript out of range, overflow. Expected from the printer's site map: reported row = row of the faulted statement, column inside its text (one past its end allowed); for run-time faults the reference semantics supplies where the fault is raised and the active call sites, and the envelope's rows must be [fault row, call-site rows innermost first ... main module]. Non-trivial = fault row >= 3 and preceded by a blank line / comment / colon join / CR or CRLF ending / enclosing block / enclosing call; distinct by (program text, fault kind)."
+        "(1) Matrix: a catalogue of statements with exactly one diagnostic (wrong argument count / argument type for user SUBs, user FUNCTIONs in every expression position, built-in functions and subs; undefined label for GOTO/GOSUB/ON ERROR/RESUME/RETURN; duplicate label/DIM/CONST; assignment to a CONST; type mismatch in every expression position; undefined TYPE / field; unterminated string literal; unbalanced parenthesis; illegal token; incomplete statements; block closers without opener; misplaced EXIT / DIM SHARED; run-time faults: division by zero, overflow, subscript out of range, illegal function call, RETURN without GOSUB, RESUME without error, out of DATA, bad file number, file not found) is placed in small programs written line by line: context (own line, inside 1 or 3 blocks, after / before a colon, THEN / ELSE branch of a one-line IF, in a SUB, in a FUNCTION called from an expression, at the end of a FUNCTION -> SUB -> FUNCTION chain) x line ending (LF, CRLF, CR, three LF/CRLF/CR rotations) x placement (first possible row, middle, last possible row; with and without final line end). (2) Random search: accepted generated programs (core programs and programs with SUB/FUNCTION call chains, 10-60 lines) are rendered under a random layout (keyword/identifier case, blanks/tabs, blank lines, comment lines, trailing comments, colon-joined statements, LF/CRLF/CR or a per-line mix, with or without final line end) and ONE fault is injected by replacing a simple statement chosen anywhere (any nesting depth, main module or procedure): the catalogue's static faults, the original seven static faults, and seven run-time faults expressed in the generator's IR. Expected: reported row = row of the faulted statement, column inside its text (one past its end allowed), error family as the catalogue says; for run-time faults the active call sites (from the construction in (1), from the reference semantics in (2)) must be reported as [fault row, call-site rows innermost first ... main module]. Non-trivial = (1) anything but the plain first-row LF case, (2) fault row >= 3 and preceded by a blank line / comment / colon join / CR, CRLF or mixed endings / enclosing block / enclosing call; distinct by (program text, fault kind)."
     }
     fn assumptions(&self) -> Vec<&'static str> {
-        vec!["columns count characters (a tab is one column)", "only faults with one unambiguous offending statement are injected (no missing END IF / NEXT)", "run-time faults whose statement the reference run never reaches are discarded"]
+        vec![
+            "columns count characters (a tab is one column)",
+            "only faults with one unambiguous offending statement are injected (no missing END IF / NEXT, no multi-line construct headers, no DECLARE/implementation conflicts)",
+            "run-time faults whose statement the reference run never reaches are discarded",
+            "a duplicate definition is diagnosed at the second definition",
+            "for a fault in the THEN / ELSE branch of a one-line IF the statement is the branch statement, not the whole line",
+        ]
     }
     fn run(&self, sh: &mut Shard) {
-        let cases = sh.share(sh.tier.pick(16_000, 500_000));
+        matrix(sh);
+        let cases = sh.share(sh.tier.pick(14_000, 500_000));
         sh.search(1, cases / 2, 60, 300, |sh, tape| one_case(sh, tape, false));
         sh.search(2, cases / 2, 80, 400, |sh, tape| one_case(sh, tape, true));
     }
